@@ -132,7 +132,10 @@ pub fn alphabet(doc: &Value, size: AlphaSize, max_names: usize, spellings: bool)
     // the pool for the full pair product of the thorough tier is the base without the confusable groups (those are
     // paired within their groups below)
     let plain_base = base.clone();
-    if size != AlphaSize::Singles {
+    // the extras below (confusable filter groups, name triples) are aimed at the panel documents, which are explored
+    // with more names; the exhaustive small universe keeps the plain union alphabet
+    let extras = size != AlphaSize::Singles && max_names >= 4;
+    if extras {
         for g in CONFUSABLE {
             for f in g.iter() {
                 base.push(filter_sel(f));
@@ -174,7 +177,7 @@ pub fn alphabet(doc: &Value, size: AlphaSize, max_names: usize, spellings: bool)
             }
         }
         // two filters of one bracketed selection that are easily confused with each other
-        for g in CONFUSABLE {
+        for g in CONFUSABLE.iter().filter(|_| extras) {
             for a in g.iter() {
                 for b in g.iter() {
                     if a != b {
@@ -186,7 +189,7 @@ pub fn alphabet(doc: &Value, size: AlphaSize, max_names: usize, spellings: bool)
             }
         }
         // name-only selections longer than the object they meet has members, in every order and with repetitions
-        {
+        if extras {
             let ns: Vec<Sel> = names.iter().take(4).map(|n| Sel::name(n)).collect();
             for a in &ns {
                 for b in &ns {
